@@ -587,6 +587,8 @@ macro_rules! proofs {
 // @harness c10_pow_l1_mneg2 tier=quick unwind=6 block=256 mem=13 timeout=1200
 // @harness c10_pow_l1_mneg2_reach tier=quick unwind=6 block=256 mem=7 timeout=1200 twin
 // @harness c10_pow_l2_m0 tier=quick unwind=6 block=256 mem=6 timeout=1200
+// @harness c10_pow_l3_m0 tier=quick unwind=7 block=256 mem=6 timeout=1200
+// @harness c10_pow_l3_m1 tier=quick unwind=7 block=256 mem=8 timeout=1200
 // @harness c10_pow_l2_m1 tier=quick unwind=6 block=256 mem=6 timeout=1200
 // @harness c10_pow_l2_mneg1 tier=quick unwind=6 block=256 mem=6 timeout=1200
 // @harness c10_pow_l2_m2 tier=thorough unwind=8 block=256 mem=26 timeout=3600 stretch
@@ -644,6 +646,8 @@ proofs! {
     c10_pow_l1_mneg2 => pow_body::<1, 2, -2>(false);
     c10_pow_l1_mneg2_reach => pow_body::<1, 2, -2>(true);
     c10_pow_l2_m0 => pow_body::<2, 4, 0>(false);
+    c10_pow_l3_m0 => pow_body::<3, 6, 0>(false);
+    c10_pow_l3_m1 => pow_body::<3, 6, 1>(false);
     c10_pow_l2_m1 => pow_body::<2, 4, 1>(false);
     c10_pow_l2_mneg1 => pow_body::<2, 4, -1>(false);
     c10_pow_l2_m2 => pow_body::<2, 4, 2>(false);
